@@ -292,8 +292,8 @@ func Array[V any](arguments ...any) col.ArrayLike[V] {
 	switch {
 	case size > 0:
 		array = class.Make(size)
-	case len(values) > 0:
-		array = class.MakeFromArray(values)
+	case values != nil:
+		array = class.MakeFromArray(values) // The Go array may be empty.
 	case sequence != nil:
 		array = class.MakeFromSequence(sequence)
 	case len(source) > 0:
